@@ -172,6 +172,11 @@ func runCheck(repo, prop, tier string, seed, workers int, only string) int {
 		}
 	}
 
+	// replay files are run-time output: drop those of earlier runs of this property
+	if only == "" {
+		os.RemoveAll(filepath.Join(vd, "replays", prop))
+	}
+
 	t0 := time.Now()
 	prog, err := interp.Load(repo, filepath.Join(vd, "harness"), cfg.Packages)
 	if err != nil {
